@@ -109,6 +109,12 @@ pub mod rrt;
 #[path = "path_plan/rrt_to.rs"]
 mod rrt_to;
 
+/// Verification hooks: re-export of the private RRT core (verif_hooks feature only).
+#[cfg(all(feature = "stroke_planning", feature = "verif_hooks"))]
+pub mod verif_hooks_rrt {
+    pub use crate::rrt_to::dual_rrt_connect;
+}
+
 #[cfg(test)]
 #[cfg(feature = "allow_filesystem")]
 mod tests;
